@@ -35,6 +35,9 @@ type soloCfg struct {
 	NoStart  bool     `json:"no_start,omitempty"`  // do not call StartDial/StartAccept
 	NoSignal bool     `json:"no_signal,omitempty"` // do not signal remote candidates up front
 	Extra    string   `json:"extra,omitempty"`     // model-specific
+	// ViaConfig builds the agent with NewAgent(&AgentConfig{...}) instead of NewAgentWithOptions (the other public entry:
+	// pointer-valued timeouts, where nil and an explicit zero differ)
+	ViaConfig bool `json:"via_config,omitempty"`
 	// RejectRemote is a CIDR whose addresses the remote IP filter rejects
 	RejectRemote string `json:"reject_remote,omitempty"`
 }
@@ -118,7 +121,34 @@ func newSoloWorld(raw json.RawMessage) *soloWorld {
 		}
 		opts = append(opts, WithRemoteIPFilter(func(ip net.IP) bool { return !reject.Contains(ip) }))
 	}
-	a, err := NewAgentWithOptions(opts...)
+	var a *Agent
+	var err error
+	if cfg.ViaConfig {
+		zero := time.Duration(0)
+		ac := &AgentConfig{
+			Net: vNet{}, MulticastDNSMode: MulticastDNSModeDisabled, NetworkTypes: []NetworkType{NetworkTypeUDP4}, CandidateTypes: []CandidateType{CandidateTypeHost},
+			LocalUfrag: vUfragA, LocalPwd: vPwdA, LoggerFactory: nopFactory{}, Lite: cfg.Lite,
+			HostAcceptanceMinWait: &zero, SrflxAcceptanceMinWait: &zero, PrflxAcceptanceMinWait: &zero, RelayAcceptanceMinWait: &zero,
+		}
+		if cfg.DiscMs != 0 {
+			d := ms(cfg.DiscMs)
+			ac.DisconnectedTimeout = &d
+		}
+		if cfg.FailMs != 0 {
+			d := ms(cfg.FailMs)
+			ac.FailedTimeout = &d
+		}
+		if cfg.KeepMs != 0 {
+			d := ms(cfg.KeepMs)
+			ac.KeepaliveInterval = &d
+		}
+		if cfg.UCPrio || cfg.Renom || cfg.RejectRemote != "" {
+			panic("soloCfg.ViaConfig: option not mapped")
+		}
+		a, err = NewAgent(ac)
+	} else {
+		a, err = NewAgentWithOptions(opts...)
+	}
 	if err != nil {
 		panic(err)
 	}
